@@ -21,7 +21,16 @@ import (
 	"time"
 )
 
-const root = "/verif"
+// root is the directory the checks live in (run.sh changes into it): /verif, or a
+// snapshot worktree of it when started through `vp run`.
+var root = func() string {
+	if d, err := os.Getwd(); err == nil {
+		if _, err := os.Stat(filepath.Join(d, "cmd", "vcheck")); err == nil {
+			return d
+		}
+	}
+	return "/verif"
+}()
 
 type buildPlan struct {
 	Build string `json:"build"`
